@@ -244,6 +244,46 @@ func c09Reassembly2(c *Ctx, rule string) {
 		r.Check(!skipped, rule, "dhcpv4.fromBytesCheckEnd: every consumed instance reaches the store", c.P.ipos(mu), "no path from Consume to the next iteration avoids the map store",
 			"an option instance can be consumed and then skipped (a path from Consume back to the loop avoids the store): its bytes are missing from the decoded value")
 	}
+	// … and every instance whose length octet was read: a zero-length instance (`code 0`) is an instance too — its code must
+	// become a key of the map (presence is what Has/len/round trips observe). The length read is the Read8 that sizes the
+	// Consume; from its block no path leads back to the next iteration without the store.
+	if mu != nil && cons != nil && len(cons.Call.Args) == 2 {
+		var lenRead *ssa.Call
+		var find func(v ssa.Value, d int)
+		find = func(v ssa.Value, d int) {
+			if d > 4 || lenRead != nil {
+				return
+			}
+			switch t := v.(type) {
+			case *ssa.Call:
+				if t.Call.StaticCallee() != nil && strings.HasSuffix(funcKey(t.Call.StaticCallee()), "uio.Lexer).Read8") {
+					lenRead = t
+				}
+			case *ssa.Convert:
+				find(t.X, d+1)
+			case *ssa.Phi:
+				for _, e := range t.Edges {
+					find(e, d+1)
+				}
+			}
+		}
+		find(cons.Call.Args[1], 0)
+		if lenRead != nil && inCycle(lenRead.Block()) {
+			loop := sccOf(lenRead.Block())
+			skipped := false
+			if lenRead.Block() != mu.Block() {
+				for b := range reachFromSuccs(lenRead.Block(), nil, map[*ssa.BasicBlock]bool{mu.Block(): true}) {
+					if loop[b] && b != lenRead.Block() && b.Dominates(lenRead.Block()) {
+						skipped = true
+					}
+				}
+			}
+			r.Check(!skipped, rule, "dhcpv4.fromBytesCheckEnd: every instance whose length was read reaches the store", c.P.ipos(lenRead), "no path from the length read to the next iteration avoids the map store",
+				"an option instance can be read (code and length) and then skipped — e.g. on length 0: a zero-length option disappears from the decoded packet (its key is never created)")
+		} else {
+			r.Undecided(rule, "dhcpv4.fromBytesCheckEnd: length read of the option loop", c.P.ipos(cons), "the Consume size is not a Read8 of this loop")
+		}
+	}
 }
 
 // marshalHelpers: f and the functions of its own package it reaches through static calls (depth ≤ 3), f first;
